@@ -166,8 +166,55 @@ fn check_padded(sh: &mut Shard, builtin: &str, num: &str, prog: &str) {
     }
 }
 
+/// The language's own words as TEXTS: every keyword, builtin name, type name, the spelling of every constant
+/// and of special numbers in this and in neighbouring languages, with case variants and padding — through every
+/// builtin, as a literal, from a variable, and as a text edited in place into that word.
+fn words_as_texts(sh: &mut Shard) {
+    let mut words: Vec<String> = Vec::new();
+    for w in [
+        "als", "anders", "zolang", "stel", "functie", "antwoord", "stop", "volgende", "ja", "nee", "print", "type", "bool", "int", "float", "string", "lengte", "null", "nul", "niks", "leeg", "true",
+        "false", "waar", "onwaar", "nil", "none", "None", "undefined", "NaN", "nan", "inf", "-inf", "infinity", "Infinity", "0x10", "1_000", "1e5", "1,5", "[]", "[1]", "{}", "()", "array", "lijst", "tekst", "getal",
+        "yes", "no", "y", "n", "0", "1", "00", "-0", "0.0", " ", "  ",
+    ] {
+        words.push(w.to_string());
+        let up = w.to_uppercase();
+        if up != w {
+            words.push(up);
+            let mut c = w.chars();
+            if let Some(f) = c.next() {
+                words.push(f.to_uppercase().collect::<String>() + c.as_str());
+            }
+        }
+        words.push(format!(" {w}"));
+        words.push(format!("{w} "));
+    }
+    for w in &words {
+        for b in BUILTINS {
+            case(sh, "words-as-texts", vec![es(calln(b, vec![string(w)]))]);
+            case(sh, "words-as-texts", vec![let_("t", string(w)), es(calln(b, vec![id("t")]))]);
+        }
+        case(sh, "words-as-texts", vec![es(array(vec![infix(string(w), Operator::Eq, string(w)), infix(string(w), Operator::Eq, string("x")), calln("lengte", vec![string(w)])]))]);
+        // the word made by an in-place edit of another text
+        let chars: Vec<char> = w.chars().collect();
+        if !chars.is_empty() && chars[chars.len() - 1] != '#' {
+            let mut other = chars.clone();
+            let last = other.len() - 1;
+            other[last] = '#';
+            let other: String = other.into_iter().collect();
+            for b in ["bool", "int", "float", "lengte", "string"] {
+                case(
+                    sh,
+                    "words-as-texts",
+                    vec![let_("t", string(&other)), es(assign(index(id("t"), int(last as i64)), string(&chars[last].to_string()))), es(array(vec![calln(b, vec![id("t")]), infix(id("t"), Operator::Eq, string(w))]))],
+                );
+            }
+        }
+    }
+}
+
 fn run(sh: &mut Shard) {
     LEDGER.with(|c| c.set(false));
+    words_as_texts(sh);
     padded_number_texts(sh);
     run_tables(sh);
     LEDGER.with(|c| c.set(true));
